@@ -1023,7 +1023,7 @@ Definition cfg_off : vizconfig :=
 Definition ex_inp1 : @cinput tstate := tb_input ex_ti CleanLEL Relaxed 1 IMIN false false 0 ex_root.
 Definition ex_m1 : @mdd tstate := fst (tb_compile ex_inp1 0 0 (tb_cache_init ex_ti) (tb_dom_init ex_ti) 0).
 
-Example ex1_compiled : tb_compile ex_inp1 0 0 (tb_cache_init ex_ti) (tb_dom_init ex_ti) 0 = (ex_m1, Compiled).
+Example ex1_compiled : compile tstate_eqb ex_inp1 0 0 (tb_cache_init ex_ti) (tb_dom_init ex_ti) 0 = (ex_m1, Compiled).
 Proof. vm_compute. reflexivity. Qed.
 
 (* show_deleted on: 9 declarations, the deleted nodes 3 4 5 with their own inbound edges, one cluster, the terminal *)
@@ -1061,9 +1061,10 @@ Example ex1_faithful :
   exists ast, tb_dot ex_inp1 ex_m1 cfg_on = Some (render ast) /\ viz_ast t_show ex_inp1 ex_m1 cfg_on = Some ast /\
               Forall stmt_syntax_ok ast /\ Nat.even (count_char dqc (render ast)) = true.
 Proof.
-  destruct (C20_as_graphviz_syntax t_show ex_inp1 tstate_eqb 0 0 _ _ 0 ex_m1 cfg_on
+  unfold tb_dot.
+  destruct (C20_as_graphviz_syntax t_show ex_inp1 tstate_eqb 0 0 (tb_cache_init ex_ti) (tb_dom_init ex_ti) 0 ex_m1 cfg_on
               (t_show_clean _ special_dq) (t_show_clean _ special_nl) ex1_compiled) as [ast [A [B [_ [C D]]]]].
-  exists ast. auto.
+  exists ast. exact (conj A (conj B (conj C D))).
 Qed.
 
 (* the same instance, pooled flavour: same statements *)
